@@ -36,6 +36,8 @@ use poulpy_hal::{
 
 /// one ciphertext cell, copied out: `cols` columns of `size` limbs of `n` coefficients; `ptlimb` = limb carrying the
 /// gadget plaintext (usize::MAX: the plaintext is zero)
+static DIRTY_COUNTER: std::sync::atomic::AtomicU64 = std::sync::atomic::AtomicU64::new(1);
+
 pub struct Cell {
     pub n: usize,
     pub cols: usize,
@@ -115,6 +117,16 @@ macro_rules! rnd_backend {
             let module: Module<BE> = Module::<BE>::new(n as u64);
             let noise = NoiseInfos::new(kxe, sig, bnd).unwrap();
             let mut scratch: ScratchOwned<BE> = ScratchOwned::alloc(1 << 24);
+            {
+                // a scratch arena that has been used before, different on every call: a fresh ciphertext must be a function of
+                // (plaintext, secret, seeds) only, never of what the arena held
+                use poulpy_hal::api::TakeSlice;
+                let salt = DIRTY_COUNTER.fetch_add(1, std::sync::atomic::Ordering::Relaxed).wrapping_mul(0x9E3779B97F4A7C15) | 1;
+                let (sl, _) = scratch.borrow().take_slice::<u64>((1 << 24) / 8 - 64);
+                for (i, x) in sl.iter_mut().enumerate() {
+                    *x = salt.wrapping_add((i as u64 % 11) << 37);
+                }
+            }
             let (deg, bk, tk) = (Degree(n as u32), Base2K(b as u32), TorusPrecision(k as u32));
             let mut xe = Source::new(seed32(sxe));
             let mut xa = Source::new(seed32(sxa));
@@ -124,7 +136,8 @@ macro_rules! rnd_backend {
                 let enc = EncryptionLayout::new(layout, noise).unwrap();
                 let mut sk = LWESecret::alloc(Degree(nl as u32));
                 fill_lwe_secret(&mut sk, dist, &mut Source::new(seed32(sxs)));
-                let mut pt = LWEPlaintext::alloc(bk, tk);
+                // a plaintext SHORTER than the ciphertext (one limb): the limbs below it are accumulated into a scratch temporary
+                let mut pt = LWEPlaintext::alloc(bk, TorusPrecision((k.min(b)) as u32));
                 pt.data_mut().at_mut(0, 0)[0] = ptvar;
                 let mut ct = LWE::alloc_from_infos(&layout);
                 module.lwe_encrypt_sk(&mut ct, &pt, &sk, &enc, &mut xe, &mut xa, scratch.borrow());
